@@ -24,6 +24,8 @@ impl Compiler {
             //@VACUITY
             r is Ok ==> (final(self).instructions@.len() == 0 && r->Ok_0.instructions@.len() > 0 && r->Ok_0.instructions@.last() == opcode_byte(OpCode::Halt)
                 && r->Ok_0.constants@ == final(self).constants@ && final(self).last_instruction == Some(OpCode::Halt)),
+            // whatever happened, the symbol table is still usable (compile_ast resets it after a failure)
+            sym_wf(final(self).symbols),
     {
 //@LOOP 1 invariant gen_inv(*self)
 //@LOOP 2 invariant self.instructions@.len() > 0, self.instructions@.last() == opcode_byte(OpCode::Halt)
